@@ -255,4 +255,6 @@ def subchecks(tier):
             describe="length<=200, scores sp-dp*d / su, CLI-range thresholds", shrink_budget=2000),
         Sub("float-scores", "hyp", check_float, strategy=float_case, examples=20000 if q else 400000, shrink_budget=1500,
             describe="inexact float scores with zero penalties: rounding-independent clauses only", required_classes=("has-zero-score",)),
+        Sub("small-atheris", "fuzz", check, strategy=small_random_case, fuzz_runs=2000 if q else 150000,
+            describe="coverage-guided (atheris/libFuzzer) search over the bytes behind the small-random generator, same oracle"),
     ]
